@@ -286,6 +286,10 @@ def r_slots(ctx) -> None:
                 lit = t.test.comparators[0].value
                 a, b = t.body, t.orelse
                 ok = isinstance(a, ast.Constant) and isinstance(b, ast.Constant) and ((lit == "left_to_right" and (a.value, b.value) == (0, 1)) or (lit == "right_to_left" and (a.value, b.value) == (1, 0)))
+            if not ok and isinstance(t, ast.Subscript) and isinstance(t.value, ast.Dict) and is_name(t.slice, "direction"):
+                # table lookup: {"left_to_right": 0, "right_to_left": 1}[direction]
+                table = {k.value: v.value for k, v in zip(t.value.keys, t.value.values) if isinstance(k, ast.Constant) and isinstance(v, ast.Constant)}
+                ok = table == {"left_to_right": 0, "right_to_left": 1} and len(t.value.keys) == 2
             ctx.rep.check(ok, rule, c, "direction digit: left_to_right -> 0, right_to_left -> 1", f"direction field is `{show(t)[:60]}`", where=w)
         elif name == "multi_disp":
             names = {s.id for s in ast.walk(t) if isinstance(s, ast.Name)}
@@ -358,8 +362,9 @@ def r_slots(ctx) -> None:
             if "difference" in txt and "range(dst_start,dst_end+1)" in txt and a.pol:
                 ok_sub = True
             core = a.expr
-            if len(term) == 1 and isinstance(core, ast.Compare) and is_name(core.left, "direction") and isinstance(core.comparators[0], (ast.Set, ast.Tuple, ast.List)):
-                vals_ = {e.value for e in core.comparators[0].elts if isinstance(e, ast.Constant)}
+            if len(term) == 1 and isinstance(core, ast.Compare) and is_name(core.left, "direction") and isinstance(core.comparators[0], (ast.Set, ast.Tuple, ast.List, ast.Dict)):
+                coll = core.comparators[0]
+                vals_ = {e.value for e in (coll.keys if isinstance(coll, ast.Dict) else coll.elts) if isinstance(e, ast.Constant)}
                 ok_dir = vals_ == {"left_to_right", "right_to_left"} and (isinstance(core.ops[0], ast.NotIn) == a.pol)
     ctx.rep.check(ok_sub, rule, f"{f.qualname}/R-exclusion-range", "excluded wells outside [dst_start, dst_end] raise ValueError", "excluded wells are not checked against range(dst_start, dst_end + 1)", where=w)
     ctx.rep.check(ok_dir, rule, f"{f.qualname}/R-direction-guard", "any other direction raises ValueError", "the direction is not restricted to the two literals before the record is built", where=w)
